@@ -7,6 +7,8 @@ import (
 	"flag"
 	"fmt"
 	"os"
+	"runtime/debug"
+	"runtime/pprof"
 	"time"
 
 	"verif/internal/cards"
@@ -19,6 +21,9 @@ type checkFn func(rep *explore.Report, tier string)
 var checks = map[string]checkFn{
 	"C03": func(rep *explore.Report, tier string) { cards.RunC03(rep) },
 	"C01": hand.RunC01,
+	"C04": hand.RunC04,
+	"C05": hand.RunC05,
+	"C06": hand.RunC06,
 }
 
 var replayers = map[string]func(v *explore.Violation) (bool, string){
@@ -27,6 +32,7 @@ var replayers = map[string]func(v *explore.Violation) (bool, string){
 }
 
 func main() {
+	debug.SetGCPercent(400)
 	flag.Parse()
 	args := flag.Args()
 	if len(args) < 1 {
@@ -46,8 +52,14 @@ func main() {
 		if len(args) > 2 {
 			r.Mode = args[2]
 		}
+		if pf := os.Getenv("VERIF_CPUPROFILE"); pf != "" {
+			f, _ := os.Create(pf)
+			pprof.StartCPUProfile(f)
+			defer pprof.StopCPUProfile()
+		}
 		t0 := time.Now()
 		r.Explore()
+		pprof.StopCPUProfile()
 		fmt.Printf("%s: states=%d transitions=%d depth=%d viol=%d %.1fs\n", c.Short(), rep.Get("states"), rep.Get("transitions"), rep.Get("max_depth"), rep.ViolationCount(), time.Since(t0).Seconds())
 		os.Exit(0)
 	}
@@ -93,7 +105,12 @@ func main() {
 		os.Exit(2)
 	}
 	rep := explore.NewReport(id, tier)
+	if pf := os.Getenv("VERIF_CPUPROFILE"); pf != "" {
+		f, _ := os.Create(pf)
+		pprof.StartCPUProfile(f)
+	}
 	fn(rep, tier)
+	pprof.StopCPUProfile()
 	code := rep.Finish()
 	fmt.Printf("%s %s: states=%d transitions=%d violations=%d exit=%d\n", id, tier, rep.Get("states"), rep.Get("transitions"), rep.ViolationCount(), code)
 	os.Exit(code)
